@@ -29,7 +29,7 @@
 (*   <<"apply", a, f>> (a |> f)   <<"applyl", f, a>> (f <| a)              *)
 (*   <<"py", P>>  <<"call", x, args>>  <<"optable", operand, rows>>        *)
 (*   <<"super", x>>   (resolved by the module layer, see Modules.tla)      *)
-(* bounds lo/hi: <<"none">> | <<"n", k>> | <<"name", x>>                   *)
+(* bounds lo/hi: <<"none">> | <<"n", k>> | <<"name", x>> | <<"py", P>>      *)
 (* args: << <<"pos", e>> | <<"kw", name, e>> ... >>                        *)
 (*                                                                         *)
 (* Values: <<"s", cps>> <<"i", n>> <<"none">> <<"t">> <<"f">>              *)
@@ -92,6 +92,8 @@ PyEval(P, env) ==
                          IN IF c = Bad THEN Bad ELSE <<"fv", P[2], c>>
       [] P[1] = "eq"  -> LET a == PyEval(P[2], env)  b == PyEval(P[3], env)
                          IN IF a = Bad \/ b = Bad THEN Bad ELSE PyBool(a = b)
+      [] P[1] = "sub" -> LET a == PyEval(P[2], env)                  \* (P) - k
+                         IN IF a = Bad \/ a[1] # "i" THEN Bad ELSE <<"i", a[2] - P[3]>>
       [] P[1] = "len" -> LET a == PyEval(P[2], env)
                          IN IF a = Bad \/ a[1] \notin {"s", "l", "tu"} THEN Bad ELSE <<"i", Len(a[2])>>
 
@@ -142,8 +144,11 @@ BoundOf(b, env) ==
     CASE b[1] = "none" -> -1
       [] b[1] = "n"    -> b[2]
       [] b[1] = "name" -> IF b[2] \in DOMAIN env
-                          THEN LET v == AsValue(env[b[2]]) IN IF v[1] = "i" THEN v[2] ELSE -2
+                          THEN LET v == AsValue(env[b[2]]) IN
+                               IF v[1] = "i" THEN (IF v[2] < 0 THEN 0 ELSE v[2]) ELSE -2
                           ELSE -2
+      [] b[1] = "py"   -> LET v == PyEval(b[2], env) IN          \* e{`python expression`}
+                          IF v # Bad /\ v[1] = "i" THEN (IF v[2] < 0 THEN 0 ELSE v[2]) ELSE -2
 
 (* Total expressions cannot signal "no match"; inside Skip their progress   *)
 (* is the signal.  Deliberately a narrow, syntactic notion (sequences are   *)
